@@ -3,7 +3,7 @@
    fails hard, a bus call over the scheduled wire is exactly the bus call over the plain wire, and so
    every controller program behaves as in C17_simulation_strict. *)
 From Flipdot Require Import Tactics.
-From Flipdot Require Import Base Frame Message Page SignType VSign Controller Io Serial IoP WireP.
+From Flipdot Require Import Base Frame Message Page SignType VSign Controller Io Serial FrameP IoP WireP.
 Local Open Scope N_scope.
 
 Definition clean_w (l : list wr_ev) : Prop := forall ev, In ev l -> ev <> WFail /\ ev <> WZero.
@@ -150,3 +150,50 @@ Theorem bridge_bad_line_any_bus p reply e rd :
   frame_read (pt_in p) = Some (Err e, rd) ->
   odk_step_replied p reply = Some (Err (OComm e), {| pt_in := rd; pt_out := pt_out p |}, None).
 Proof. intros Hr. unfold odk_step_replied. rewrite Hr. reflexivity. Qed.
+
+(* ---------- the bridge serving a whole stream of requests ---------- *)
+Definition answers_written (answers : list (option msg)) : list N :=
+  concat (map (fun a => match a with Some rm => encode_nl (frame_of_msg rm) | None => [] end) answers).
+
+Lemma clean_w_skipn j l : clean_w l -> clean_w (skipn j l).
+Proof. intros H ev Hin. apply H. exact (In_skipn _ _ _ Hin). Qed.
+Lemma clean_r_skipn j l : clean_r l -> clean_r (skipn j l).
+Proof. intros H Hin. apply H. exact (In_skipn _ _ _ Hin). Qed.
+
+(* Well-formed request frames back to back on the line, any fragmentation and interruptions, a bus that answers as
+   scripted: every request is forwarded, in order, as the message its frame stands for; what is written back is exactly
+   the frames of the answers given, in order, nothing for the silent ones; the bytes after the last request stay unread. *)
+Theorem bridge_conversation : forall fs answers trailing out ws rs,
+  length fs = length answers -> Forall wf_frame fs -> clean_w ws -> clean_r rs ->
+  exists p',
+    odk_run {| pt_in := {| r_content := concat (map encode_nl fs) ++ trailing; r_sched := rs |};
+               pt_out := {| w_out := out; w_sched := ws |} |} answers
+    = Some (map (fun f => (Ok tt, Some (msg_of_frame f))) fs, p')
+    /\ w_out (pt_out p') = out ++ answers_written answers
+    /\ r_content (pt_in p') = trailing.
+Proof.
+  induction fs as [|f fs IH]; intros answers trailing out ws rs Hlen Hwf Hw Hr.
+  - destruct answers; [|discriminate]. eexists. split; [reflexivity|]. cbn. rewrite app_nil_r. auto.
+  - destruct answers as [|a answers]; [discriminate|]. injection Hlen as Hlen.
+    inversion Hwf as [|f0 fs0 Hf Hfs]; subst f0 fs0.
+    cbn [map concat odk_run]. rewrite <- app_assoc.
+    destruct (C15_read_exact (encode_nl f ++ concat (map encode_nl fs) ++ trailing) rs Hr) as (r1 & Hread & Hc & i & Hi).
+    rewrite first_line_encode_nl in Hread, Hc. cbn [fst snd] in Hread, Hc.
+    destruct (C01_roundtrip f Hf) as [_ Hdec]. rewrite Hdec in Hread.
+    unfold odk_step_replied. cbn [pt_in pt_out]. rewrite Hread.
+    destruct r1 as [c1 s1]. cbn [r_content r_sched] in Hc, Hi. subst c1 s1.
+    destruct a as [rm|].
+    + destruct (frame_write (frame_of_msg rm) {| w_out := out; w_sched := ws |}) as [[wres w']|] eqn:Ew;
+        [|exfalso; exact (proj2 C15_fuel_enough _ _ Ew)].
+      pose proof (C15_write_cases _ _ _ _ Ew) as [[j Hj] Hcase]. cbn [w_sched w_out] in Hj, Hcase.
+      destruct Hcase as [[-> Ho]|(_ & [Hbad|Hbad] & _)];
+        [|exfalso; destruct (Hw _ Hbad) as [H1 _]; congruence|exfalso; destruct (Hw _ Hbad) as [_ H2]; congruence].
+      destruct w' as [o' s']. cbn [w_out w_sched] in Ho, Hj. subst o' s'.
+      destruct (IH answers trailing (out ++ encode_nl (frame_of_msg rm)) (skipn j ws) (skipn i rs) Hlen Hfs
+                   (clean_w_skipn j ws Hw) (clean_r_skipn i rs Hr)) as (p' & Hrun & Hout & Hin).
+      rewrite Hrun. exists p'. split; [reflexivity|]. split; [|exact Hin].
+      rewrite Hout. unfold answers_written. cbn [map concat]. now rewrite app_assoc.
+    + destruct (IH answers trailing out ws (skipn i rs) Hlen Hfs Hw (clean_r_skipn i rs Hr)) as (p' & Hrun & Hout & Hin).
+      rewrite Hrun. exists p'. split; [reflexivity|]. split; [|exact Hin].
+      rewrite Hout. reflexivity.
+Qed.
